@@ -100,7 +100,9 @@ def cases(tier, seed):
         paths = explore(size)
         for st, path in sorted(paths.items()):
             probes = [("add", k) for k in range(0, size + 2)] + [("consume", k) for k in range(0, size + 2)] + \
-                     [("atmost", k) for k in range(0, size + 2)] + [("rewind", 0), ("clear", 0), ("reset", 0), ("repeat", 0)]
+                     [("atmost", k) for k in range(0, size + 2)] + [("rewind", 0), ("clear", 0), ("reset", 0), ("repeat", 0)] + \
+                     [(kind, 2 ** 64 - k) for kind in ("consume", "atmost") for k in range(1, size + 2)] + \
+                     [("consume", 2 ** 63), ("atmost", 2 ** 63 - 1), ("consume", 2 ** 32 + 1), ("atmost", 2 ** 32)]
             for p in probes:
                 ctr = Ctr()
                 # after the probe: observe everything that is still there
@@ -122,7 +124,7 @@ def cases(tier, seed):
                 if u + k <= size:
                     u += k
             elif r < 0.6:
-                k = rnd.choice([0, 1, u - o, u - o + 1, rnd.randint(0, size + 1)])
+                k = rnd.choice([0, 1, u - o, u - o + 1, rnd.randint(0, size + 1), 2 ** 64 - 1 - rnd.randint(0, size), 2 ** 64 - max(o, 1)])
                 ops.append("bb.consume %d" % k)
                 if k <= u - o:
                     o += k
